@@ -386,8 +386,8 @@ func r124(c *Ctx) {
 				"the position advances by the length of a prefix that strings.HasPrefix just found at pos", "the position is advanced without a dominating prefix test of at least that length: it can run past the input, and the next slice panics")
 		})
 	}
-	if n < 3 {
-		r.Undecide("R12.4", "", "position writes", "", fmt.Sprintf("%d found, floor 3", n))
+	if n < 1 {
+		r.Undecide("R12.4", "", "position writes", "", fmt.Sprintf("%d found, floor 1", n))
 	}
 }
 
